@@ -340,6 +340,12 @@ def unit_bounded_literal_case(eng):
                 for i, up in zip(letters, c):
                     t[i] = t[i].upper() if up else t[i].lower()
                 spellings.append((v, "".join(t)))
+    # the sign belongs to the number whatever its radix spelling: '-^O32' is '-32' (one letter case per form; the sign written tight and with a blank)
+    for v in values:
+        for f in ["0x%x" % v, "0o%o" % v, "0b" + bin(v)[2:], "^x%x" % v, "^o%o" % v, "^b" + bin(v)[2:], "^d%d" % v, "%d." % v, "%o" % v, "^X%X" % v, "^D%d" % v]:
+            spellings.append(((-v) % 65536, "-" + f))
+            spellings.append(((-v) % 65536, "- " + f))
+            spellings.append((v, "+" + f))
     spellings = sorted(set(spellings))
     jobs = [{"kind": "asm", "sources": [".word %s\nmov #%s, r0\n" % (sp, sp)]} for _, sp in spellings]
     res = driver.native(jobs, driver.tree_root(), timeout=900)
@@ -348,9 +354,9 @@ def unit_bounded_literal_case(eng):
         want = (v.to_bytes(2, "little") + (0o012700).to_bytes(2, "little") + v.to_bytes(2, "little")).hex()
         if r["status"] != "ok" or r.get("code_hex") != want:
             bad.append((sp, "%o" % v, r["status"], r.get("code_hex"), [d[1] for d in r.get("diags", [])][:2]))
-    ob = dict(label="every-letter-case-of-every-radix-spelling(0x 0o 0b ^X ^O ^B ^D ^C, hex digits)-assembles-like-the-octal-spelling", kind="bounded", status="proved" if spellings and not bad else "failed",
+    ob = dict(label="every-letter-case-and-sign-of-every-radix-spelling(0x 0o 0b ^X ^O ^B ^D ^C, hex digits)-assembles-like-the-octal-spelling", kind="bounded", status="proved" if spellings and not bad else "failed",
               secs=0.0, path=[], witness=None, detail=str(bad[:5]), events=[], smt2=None, backend="cpython-native", unit="bounded-literal-case", func="parser.number (bounded stand-in)",
-              bound="%d values x 9 radix spellings x every letter-case combination (%d spellings)" % (len(values), len(spellings)), cases=len(spellings), cfg=dict(kind="bounded"))
+              bound="%d values x 9 radix spellings x every letter-case combination, and x 11 spellings x 3 signs (%d spellings)" % (len(values), len(spellings)), cases=len(spellings), cfg=dict(kind="bounded"))
     return dict(unit="bounded-literal-case", func="parser.number (bounded stand-in)", paths=len(spellings), obligations=[ob], wall=0.0)
 
 
